@@ -51,6 +51,9 @@ pub fn dump_logs(args: &[String], seed: u64) -> i32 {
     let (kp, _) = kplus(&corpus);
     let mut cover_bases: Vec<(&Entry, bool)> = corpus.k0.iter().map(|e| (e, true)).collect();
     for (gi, e) in corpus.g.iter().enumerate() {
+        if gi >= corpus.extra_from && tier != Tier::Thorough {
+            continue;
+        }
         if kp[gi] || census_g[gi].interesting() {
             cover_bases.push((e, kp[gi]));
         }
